@@ -5,10 +5,12 @@ package rt
 import (
 	"encoding/json"
 	"fmt"
+	"github.com/google/mtail/internal/runtime"
 	"os"
 	"path/filepath"
 	"sort"
 	"strings"
+	"syscall"
 	"testing"
 	"time"
 
@@ -360,9 +362,20 @@ func c26RunRaw(raw json.RawMessage) *vstat.Failure {
 }
 
 func TestC26(t *testing.T) {
-	st := vstat.New("C26", "histories over a real program directory (3 eligible program files, a dot-file, a .txt file, a .bak file, files in a subdirectory, a directory with an eligible-looking name): write a new version / the same bytes / a broken version, remove, rename between any two slots (eligible <-> ineligible, program <-> program), each followed by LoadAllPrograms, K lines and quiescence; every (file, version) counts lines under its own stamp, the model predicts which stamps advance by K. non-trivial = a history with a broken edit of a running program followed by a valid edit, or a rename involving an eligible name; distinct by history")
+	st := vstat.New("C26", "histories over a real program directory (3 eligible program files, a dot-file, a .txt file, a .bak file, files in a subdirectory, a directory with an eligible-looking name): write a new version / the same bytes / a broken version, remove, rename between any two slots (eligible <-> ineligible, program <-> program), each followed by LoadAllPrograms, K lines and quiescence; plus a fixed scenario in which reloads are requested by SIGHUP and the second request arrives while the first scan is held at a named pipe; every (file, version) counts lines under its own stamp, the model predicts which stamps advance by K. non-trivial = a history with a broken edit of a running program followed by a valid edit, or a rename involving an eligible name; distinct by history")
 	st.Assumptions = []string{"lines fully processed per program name are read from the exported vm.LineProcessingDurations histogram", "a scan is observed when LoadAllPrograms returns"}
 	st.Run(t, c26RunRaw, func() {
+		if shard, _ := vstat.Shard(); shard == 0 {
+			for round := 0; round < vstat.Scale(6, 30); round++ {
+				f := vstat.Catch(func() *vstat.Failure { return c26HupDuringScan(round) })
+				st.Eval()
+				st.Class("reload-requested-by-signal-during-a-scan")
+				if f != nil {
+					st.Violate(t, f, nil, "hup-during-scan")
+					return
+				}
+			}
+		}
 		ops := []string{"new", "new", "same", "broken", "broken", "remove", "remove", "revert", "revert", "rename", "rename", "dir", "todir", "scan"}
 		st.Check(t, func(rt *rapid.T) {
 			var c c26Case
@@ -432,3 +445,77 @@ func TestC26(t *testing.T) {
 }
 
 func c26RunRawCase(s string) (c26Case, error) { return vstat.JSON[c26Case](json.RawMessage(s)) }
+
+// c26HupDuringScan: reload requests arrive as SIGHUP, and a second request
+// arrives while the scan for the first is still under way (it is held at a
+// named pipe that sorts last in the directory). What the second request was
+// sent for - an edit to a file the first scan has already passed - must be
+// running once both are served.
+func c26HupDuringScan(round int) *vstat.Failure {
+	tag := uniq()
+	dir, err := os.MkdirTemp(vstat.Scratch(), "c26h-")
+	if err != nil {
+		panic(err)
+	}
+	defer os.RemoveAll(dir)
+	a := "a_" + tag + ".mtail"
+	fifo := "zzf_" + tag + ".mtail"
+	write := func(stamp string) {
+		if err := os.WriteFile(filepath.Join(dir, a), []byte(c26Source(stamp)), 0o644); err != nil {
+			panic(err)
+		}
+	}
+	write("v1")
+	e, err := newEnv(dir)
+	if err != nil {
+		panic(err)
+	}
+	defer e.close()
+	if err := e.r.LoadAllPrograms(); err != nil {
+		return vstat.Failf("load-all-error", "%v", err)
+	}
+	loads0 := mapVal(runtime.ProgLoads, a)
+	if err := syscall.Mkfifo(filepath.Join(dir, fifo), 0o644); err != nil {
+		panic(err)
+	}
+	hup := func() {
+		if err := syscall.Kill(os.Getpid(), syscall.SIGHUP); err != nil {
+			panic(err)
+		}
+	}
+	hup() // request 1: the scan passes a_… (unchanged) and waits at the pipe
+	time.Sleep(time.Duration(20+10*(round%3)) * time.Millisecond)
+	write("v2")
+	hup() // request 2
+	time.Sleep(2 * time.Millisecond)
+	// let the first scan go on: the pipe yields an empty program
+	w, err := os.OpenFile(filepath.Join(dir, fifo), os.O_WRONLY, 0)
+	if err != nil {
+		panic(err)
+	}
+	w.Close()
+	_ = os.Remove(filepath.Join(dir, fifo))
+	// both requests served: a_… has been loaded again
+	ok := false
+	for end := time.Now().Add(5 * time.Second); time.Now().Before(end); time.Sleep(2 * time.Millisecond) {
+		if mapVal(runtime.ProgLoads, a) > loads0 {
+			ok = true
+			break
+		}
+	}
+	if !ok {
+		return vstat.Failf("reload-request-lost", "a reload was requested (SIGHUP) after %s had been edited, while the scan for an earlier request was under way; 5 s later the file has not been loaded again", a)
+	}
+	e.markRunning(a, true)
+	for i := 0; i < 3; i++ {
+		e.feed("f", fmt.Sprintf("L%d", i))
+	}
+	if late := e.quiesce(10 * time.Second); late != nil {
+		return vstat.Failf("lines-not-processed", "%v", late)
+	}
+	h := c26Hits(e.store, a)
+	if h["v2"] != 3 || h["v1"] != 0 {
+		return vstat.Failf("stale-version-running", "after the edit and the reload request the lines were counted by %v (want v2: 3)", h)
+	}
+	return nil
+}
